@@ -54,12 +54,30 @@ def rule_commit_after_insert(ctx: Ctx) -> None:
     for fi in ins:
         cfg = ctx.cfg(fi)
         ex = [c for c in calls(fi, "self.execute") if re.match(r"\s*(INSERT|REPLACE|UPDATE|DELETE)", _sql_of(c, fi), re.I)]
-        ctx.check(bool(ex), "commit-after-insert", fi, fi.node, f"{fi.qualname} issues its INSERT through self.execute", f"{fi.qualname} has no recognisable write statement")
+        # the write may be issued by a helper of the same class that is handed the statement (one level)
+        helper_sites = []
+        if not ex and fi.cls is not None:
+            for c in calls(fi):
+                ch = chain(c.func) or ""
+                if ch.startswith("self.") and ch.count(".") == 1 and c.args and re.match(r"\s*(INSERT|REPLACE|UPDATE|DELETE)", _sql_of(c, fi), re.I):
+                    h = fi.cls.lookup(call_name(c))
+                    if h is not None:
+                        for e in calls(h, ["self.execute", "self.executemany"]):
+                            helper_sites.append((h, e, c))
+        ctx.check(bool(ex) or bool(helper_sites), "commit-after-insert", fi, fi.node, f"{fi.qualname} issues its INSERT through self.execute", f"{fi.qualname} has no recognisable write statement")
         cm = [n for c in calls(fi, "self.commit") for n in cfg.nodes_for(c)]
         for e in ex:
             ok = bool(cm) and all(cfg.always_followed_by(n, cm) for n in cfg.nodes_for(e))
             ctx.check(ok, "commit-after-insert", fi, e, f"{fi.qualname}: every normal path from the INSERT to the return passes self.commit()",
                       f"{fi.qualname} can return after its INSERT without committing: a record whose insert call returned is lost by a crash")
+        for h, e, c in helper_sites:
+            hcfg = ctx.cfg(h)
+            hcm = [n for k in calls(h, "self.commit") for n in hcfg.nodes_for(k)]
+            ok = (bool(hcm) and all(hcfg.always_followed_by(n, hcm) for n in hcfg.nodes_for(e))) or \
+                (bool(cm) and all(cfg.always_followed_by(n, cm) for n in cfg.nodes_for(c)))
+            ctx.check(ok, "commit-after-insert", fi, c, f"{fi.qualname}: the helper {h.name} (or the caller) commits on every normal path after the INSERT",
+                      f"{fi.qualname} writes through {h.qualname}, which can return after the INSERT without committing (the commit is conditional): "
+                      "a record whose insert call returned is lost by a crash")
         for c in calls(fi, "self.commit"):
             ctx.check(not c.args and not c.keywords, "commit-after-insert", fi, c, "plain commit()", "commit is called with arguments that change its meaning")
         ctx.check(not fi.is_async and not fi.node.decorator_list, "commit-after-insert", fi, fi.node, f"{fi.qualname} is a plain synchronous method",
@@ -89,6 +107,14 @@ def rule_no_deferred(ctx: Ctx) -> None:
         if isinstance(a.ctx, ast.Store):
             ctx.check(fi is not None and fi.qualname in ("Database.__init__", "Database.__enter__", "Database.__exit__", "Database.commit"), "no-deferred-commit",
                       fi or m.relpath, enclosing_stmt(a), "_pending_commits written only by __init__/__enter__/__exit__/commit", "_pending_commits is set elsewhere: commits can be deferred silently")
+    # leaving a `with database:` block always ends the deferral, also when the body raised
+    ex_ = repo.method("Database", "__exit__", DB)
+    cfge = ctx.cfg(ex_)
+    resets = [n for s_ in walk_no_nested(ex_.node) if isinstance(s_, ast.Assign) and any("self._pending_commits" in norm(t) for t in s_.targets)
+              and (norm(s_.value) in ("0", "(0, self._pending_commits)")) for n in cfge.nodes_for(s_)]
+    ok = bool(resets) and cfge.exit not in cfge.reach(cut_nodes=resets, follow_exc=False)
+    ctx.check(ok, "no-deferred-commit", ex_, ex_.node, "__exit__ resets _pending_commits to 0 on every path (also when the body raised)",
+              "a `with database:` block whose body raises leaves the database in deferred-commit mode: every later insert returns without being committed")
     init = repo.method("Database", "__init__", DB)
     ok = any(norm(s.value) == "0" for s, t in stores(init, "self._pending_commits"))
     ctx.check(ok, "no-deferred-commit", init, init.node, "_pending_commits starts at 0", "databases start in deferred-commit mode")
@@ -257,6 +283,14 @@ def rule_schema(ctx: Ctx) -> None:
                   f"{getter}: selected columns {sel} do not match from_database_tuple parameters {params}")
         where = re.search(r"WHERE\s+(\w+)\s*=", _sql_of(calls(g, "self.execute")[0], g), re.I)
         ctx.check(where is not None and where.group(1) == "public_key", "schema-reopen", g, g.node, f"{getter} selects by public_key", f"{getter} does not select by owner key")
+    # a record is written after the records it points to: token before its metadata, metadata before attestations over it
+    ac = repo.method("PseudonymManager", "add_credential", "ipv8/attestation/identity/manager.py")
+    cfga = ctx.cfg(ac)
+    tok = [n for c in calls(ac) if call_name(c) == "insert_token" for n in cfga.nodes_for(c)]
+    md = [c for c in calls(ac) if call_name(c) == "insert_metadata"]
+    ok = bool(tok) and bool(md) and all(cfga.must_complete(n, tok) for c in md for n in cfga.nodes_for(c))
+    ctx.check(ok, "schema-reopen", ac, md[0] if md else ac.node, "add_credential commits the token before the metadata that points to it",
+              "the metadata row is committed before the token it points to: a kill between the two commits leaves a credential whose token is missing after reopen")
     # reload path reads the same tables the inserts write
     pm = repo.method("PseudonymManager", "__init__", "ipv8/attestation/identity/manager.py")
     ok = any(call_name(c) == "get_tokens_for" for c in calls(pm)) and any(call_name(c) == "get_credentials_for" for c in calls(pm))
